@@ -114,6 +114,10 @@ def evaluator(ctx: core.Ctx, ex: campaign.Executed, collect_fail):
 
 def check_meta(ct, lang: str, m: typing.Dict[str, str], service_port_ids=None) -> typing.List[typing.Tuple[str, str]]:
     t = inner(ct)
+    if m.get("fixed_port_id") == "none":  # the Python probe says so explicitly when the class has no _FIXED_PORT_ID_
+        m = {k: v for k, v in m.items() if k != "fixed_port_id"}
+        if t.has_fixed_port_id and not t.has_parent_service:
+            return [("fixed-port-id", f"no fixed port-ID exported, the DSDL definition gives {t.fixed_port_id}")]
     out: typing.List[typing.Tuple[str, str]] = []
     maxb = (t.bit_length_set.max + 7) // 8
     ext = ct.extent // 8
@@ -129,11 +133,12 @@ def check_meta(ct, lang: str, m: typing.Dict[str, str], service_port_ids=None) -
         expect("bufsize", maxb, "serialization-buffer-size")
         if int(m["bufsize"]) > int(m["extent"]):
             out.append(("buffer-size-exceeds-extent", f"{m['bufsize']} > {m['extent']}"))
+    if lang in ("c", "cpp") and isinstance(t, pydsdl.UnionType):
+        # C: <T>_UNION_OPTION_COUNT_; C++: VariantType::MAX_INDEX of both variant flavours
+        expect("union_option_count", len(t.fields), "union-option-count")
     if lang == "c":
         expect("full_name", t.full_name, "full-name")
         expect("full_name_and_version", f"{t.full_name}.{t.version.major}.{t.version.minor}", "full-name-and-version")
-        if isinstance(t, pydsdl.UnionType):
-            expect("union_option_count", len(t.fields), "union-option-count")
         for f in t.fields_except_padding:
             if isinstance(f.data_type, pydsdl.ArrayType):
                 expect(f"cap.{f.name}", f.data_type.capacity, "array-capacity")
